@@ -220,6 +220,11 @@ impl Dfs {
     pub fn new(depth: usize) -> Self {
         Dfs { depth, stack: vec![], pos: 0 }
     }
+    /// all `depth` enumerated decisions of the current run have been taken: the caller should
+    /// continue with a fair policy of its own (e.g. round-robin) so that the run terminates
+    pub fn past_depth(&self) -> bool {
+        self.pos >= self.depth
+    }
     /// prepare the next run; `false` when the enumeration is complete
     pub fn advance(&mut self) -> bool {
         // drop decisions that were not reached in the last run
